@@ -6,6 +6,7 @@ usage: try_seed.py <seed-dir> <name> <check-id>...
  2. apply the patch to /repo itself (git apply), run the given checks, undo (git checkout -- .).
  3. store patch.diff, demo.rs, meta.json (+ what was run and what the checks said) under /verif/seeded/<name>/ ."""
 import json, os, shutil, subprocess, sys, tempfile
+VERIF = os.path.dirname(os.path.dirname(os.path.abspath(__file__)))
 seed, name, checks = sys.argv[1], sys.argv[2], sys.argv[3:]
 patch = os.path.join(seed, 'patch.diff')
 demo = os.path.join(seed, 'demo.rs')
@@ -41,7 +42,7 @@ if ok_existing and demo_fails and demo_passes:
     subprocess.run(['git', '-C', '/repo', 'apply', patch], check=True)
     try:
         for c in checks:
-            r = subprocess.run(['/verif/check', c], capture_output=True, text=True, env=dict(os.environ, VERIF_OUT=scratch_out))
+            r = subprocess.run([os.path.join(VERIF, 'check'), c], capture_output=True, text=True, env=dict(os.environ, VERIF_OUT=scratch_out))
             lines = [l for l in r.stdout.splitlines() if l.startswith('  rule') or l.startswith('[') or l.startswith('KNOWN')]
             verdicts[c] = {'exit': r.returncode, 'lines': [l[:300] for l in lines[:10]]}
             print(c, 'exit', r.returncode)
@@ -49,11 +50,11 @@ if ok_existing and demo_fails and demo_passes:
                 print('   ', l[:260])
     finally:
         subprocess.run(['git', '-C', '/repo', 'checkout', '--', '.'], check=True)
-    out = os.path.join('/verif/seeded', name)
+    out = os.path.join(VERIF, 'seeded', name)
     os.makedirs(out, exist_ok=True)
     shutil.copy(patch, os.path.join(out, 'patch.diff'))
     shutil.copy(demo, os.path.join(out, 'demo.rs'))
-    meta2 = {'property': meta.get('property'), 'summary': meta.get('summary'), 'needs_to_manifest': meta.get('needs_to_manifest'),
+    meta2 = {'property': meta.get('property'), 'summary': meta.get('summary'), 'needs_to_manifest': meta.get('needs_to_manifest'), 'origin': meta.get('origin'),
              'confirmed_by': res, 'commands': ['git apply patch.diff (scratch worktree)', 'cargo test --workspace --offline', 'cargo test --offline --test demo (with / without patch)',
                                                'git -C /repo apply patch.diff; ./check <id>; git -C /repo checkout -- .'],
              'checks_run': verdicts, 'detected_by': [c for c, v in verdicts.items() if v['exit'] == 1]}
